@@ -44,7 +44,7 @@ META = {
                     'does not have, so only "never blocks" (I1) and "heals" (I5) are asserted after them',
                     'after a crash a file holds the old content, the new content or an unloadable prefix (the '
                     'SimFS flushes what was written before the kill)'],
-    'probe_names': ['crash_between_truncate_and_write', 'crash_mid_write', 'crash_in_readback', 'crash_in_render',
+    'probe_names': ['common_label_saved', 'crash_between_truncate_and_write', 'crash_mid_write', 'crash_in_readback', 'crash_in_render',
                     'crash_before_paux', 'crash_after_save', 'loads_to_nondict', 'dict_without_renderer', 'edited_owner',
                     'healed_after_fault', 'cross_ref_resolved', 'other_block_preserved', 'xr_reader_used',
                     'corrupt_file_read', 'partial_restore_after_bad_entry', 'save_failed_run_continued', 'ioerr_open_r', 'ioerr_write', 'ioerr_open_w'],
@@ -59,10 +59,20 @@ JOB = 'sim.props.c20:job'
 # documents
 
 FANCY_NAMES = ['d0', 'd1.v2', 'd2 x']
+SUFFIX_NAMES = ['d0', 'xd0', 'yxd0']        # each job name is a suffix of the next one's
+COMMON = 'common'
+
+
+def no_common(d):
+    """The model tracks the labels a document can see of ANOTHER document; the common label is always shadowed by the
+    reader's own one, so it is left out of the model's blocks."""
+    return dict((k, v) for k, v in d.items() if k != COMMON)
 
 
 def docname(i, fancy=False):
     """Job name of document i (file <name>.tex, label file <name>.paux)."""
+    if fancy == 'suffix':
+        return SUFFIX_NAMES[i % 3]
     return FANCY_NAMES[i % 3] if fancy else 'd%d' % i
 
 
@@ -108,6 +118,11 @@ def doc_source(i, st, m, use_xr, fancy_names=False):
         else:
             lines.append('Before e%dx%d.' % (i, k))
             lines.append('\\begin{equation}\\label{%s} x_{%d}=%d \\end{equation}' % (lab, k, ver))
+    if st.get('common'):
+        # a label name that every document of the directory defines: each document's own one is saved to its own file,
+        # whatever was restored from the other documents' files before
+        lines.append('\\section{Common c%d}\\label{%s}' % (i, COMMON))
+        lines.append('Body c%d.' % i)
     for (j, k) in st['refs']:
         lines.append('See r%dx%dx%d \\ref{%sd%dL%d}.' % (i, j, k, xr_prefix(use_xr, j) if use_xr else '', j, k))
     lines.append('\\end{document}')
@@ -146,6 +161,9 @@ def generate(seed, tier):
         for k in range(r.randint(1, 4)):
             items.append([r.choice(['section', 'section', 'equation', 'section', 'equation', 'figure', 'item', 'emptysection', 'starsection']), k, 0])
         docs.append({'items': items, 'refs': [], 'next': len(items), 'fancy': r.random() < 0.4})
+    if R('common').random() < 0.3:
+        for d in docs:
+            d['common'] = True
     for i in range(m):
         for j in range(m):
             if j != i:
@@ -192,7 +210,7 @@ def generate(seed, tier):
             if rf.random() < 0.7:       # a corruption is only a fault once somebody reads the file
                 ops.append({'op': 'RUN', 'doc': ro.randrange(8), 'r': ro.randrange(2)})
     return {'property': PID, 'seed': seed,
-            'swarm': {'m': m, 'renderers': rends, 'docs': docs, 'xr': use_xr, 'enabled': enabled, 'fancy_names': r.random() < 0.3, 'base_url': r.choice(['', '', '', 'http://base.example/docs', 'http://b.example/x/']),
+            'swarm': {'m': m, 'renderers': rends, 'docs': docs, 'xr': use_xr, 'enabled': enabled, 'fancy_names': r.choice([False, False, False, False, True, True, 'suffix']), 'base_url': r.choice(['', '', '', 'http://base.example/docs', 'http://b.example/x/']),
                       'fault_free': fault_free},
             'ops': ops}
 
@@ -342,6 +360,8 @@ def sweep_job(args, fs):
             continue
         got = {}
         for lab, n in doc.context.labels.items():
+            if lab == COMMON:
+                continue            # (not part of the model's blocks, see no_common)
             got[lab] = (_s(getattr(n, 'ref', None)), _s(getattr(n, 'title', None)), _s(getattr(n, 'urloverride', None)))
         if kind == 'truncate':
             if got and got != want:
@@ -423,9 +443,9 @@ class Sim(object):
         self.m = sw['m']
         self.rends = sw['renderers']
         self.xr = sw.get('xr', False)
-        self.fancy = bool(sw.get('fancy_names'))
+        self.fancy = sw.get('fancy_names') or False
         self.root = root
-        self.docs = [dict(items=[list(x) for x in d['items']], refs=[list(x) for x in d['refs']], next=d['next'], fancy=d.get('fancy', False))
+        self.docs = [dict(items=[list(x) for x in d['items']], refs=[list(x) for x in d['refs']], next=d['next'], fancy=d.get('fancy', False), common=bool(d.get('common')))
                      for d in sw['docs']]
         # model: per file -> {'state': 'clean'|'dirty'|'absent', 'cands': [blocks...], 'fuzzy': bool}
         # blocks = {R: {label: (ref, title, url)}}
@@ -720,7 +740,7 @@ class Sim(object):
         old file really had (every candidate), with block R replaced by what this job saves.  An unloadable old
         file (candidate {}) gives {R: saved}."""
         saved = out['result']['saved'] or {}
-        blockR = dict((k, (v['ref'], v['title'], v['url'])) for k, v in saved.items())
+        blockR = no_common(dict((k, (v['ref'], v['title'], v['url'])) for k, v in saved.items()))
         res = []
         for c in self.files[name]['cands']:
             m = dict(c, **{R: blockR})
@@ -800,6 +820,12 @@ class Sim(object):
         exp = expected_numbers(self.docs[i])
         # the generator's own bookkeeping vs what the live nodes say (guards the observation itself)
         for lab, v in saved.items():
+            if lab == COMMON:
+                if v['title'] is None or ('c%d' % i) not in v['title']:
+                    self.violation('C20|save|common-label-of-another-document', {'label': lab, 'saved': v, 'doc': i})
+                    return
+                self.info['common_label_saved'] = 1
+                continue
             kk = int(lab.split('L')[1])
             if kk in exp:
                 num, ver, kind = exp[kk]
@@ -808,14 +834,14 @@ class Sim(object):
                 if v['ref'] is None or num not in v['ref']:
                     self.violation('C20|save|number', {'label': lab, 'saved': v, 'expected': num})
                     return
-        if sorted(saved) != sorted('d%dL%d' % (i, it[1]) for it in self.docs[i]['items']):
+        if sorted(saved) != sorted(['d%dL%d' % (i, it[1]) for it in self.docs[i]['items']] + ([COMMON] if self.docs[i].get('common') else [])):
             self.violation('C20|save|labelset', {'saved': sorted(saved), 'doc': self.docs[i]['items']})
             return
         # I2 / I3 / I4: what this job restored from the other documents' files
         restored = res['restored'] or {}
         byfile = {}
         for lab, d in restored.items():
-            if self.xr and isinstance(lab, str) and lab.startswith('X') and '-d' in lab:
+            if self.xr and isinstance(lab, str) and lab.startswith('X') and ('-d' in lab or lab.endswith('-' + COMMON)):
                 continue        # labels[prefix + label] entries made by \externaldocument[prefix]: judged by the xr check
             if not isinstance(lab, str) or not lab.startswith('d') or 'L' not in lab:
                 byfile.setdefault('?', {})[lab] = d
@@ -962,10 +988,12 @@ class Sim(object):
                 if R2 != R and isinstance(blk, dict):
                     nb = {}
                     for lab, v in blk.items():
+                        if lab == COMMON:
+                            continue
                         if not _junk_entry(lab, v):
                             nb[lab] = (_s(v.get('ref')), _s(v.get('title')), _s(v.get('url')))
                     newblocks[R2] = nb
-        newblocks[R] = want
+        newblocks[R] = no_common(want)
         fuzzy = fm['fuzzy'] and any(R2 != R for R2 in d)
         # junk entries of OTHER renderers' blocks stay on disk until those renderers save again: a reader under such a
         # renderer may give up at the junk entry and get only a subset of that block
@@ -998,7 +1026,7 @@ class Sim(object):
 
 
 def _junk_entry(lab, v):
-    return (not isinstance(lab, str)) or (not lab.startswith('d')) or (not isinstance(v, dict)) \
+    return (not isinstance(lab, str)) or (lab != COMMON and not lab.startswith('d')) or (not isinstance(v, dict)) \
         or (not isinstance(v.get('macroName', 'Macro'), str)) or str(v.get('macroName', '')).startswith('nosuch')
 
 
